@@ -339,6 +339,12 @@ func runArgparse(t *Tree, sc *Scenario, argv []S) (obs *Obs) {
 			}
 			return args, nil
 		}
+	case "dropall":
+		// consumes everything that is left and says so with a nil slice
+		p.UnknownOptionHandler = func(option string, arg flags.SplitArgument, args []string) ([]string, error) {
+			b.logUnk(option, arg, args)
+			return nil, nil
+		}
 	case "inject":
 		p.UnknownOptionHandler = func(option string, arg flags.SplitArgument, args []string) ([]string, error) {
 			b.logUnk(option, arg, args)
